@@ -1014,6 +1014,15 @@ class EPnPSub(Sub):
         try:
             with rec.sut("EPnP", allow=(RuntimeError,) if bc == "pts_shared" else ()):
                 solver = pp.module.EPnP(Kt, refine=case["refine"]) if case["via"] == "ctor" else pp.module.EPnP(refine=case["refine"])
+                if case["via"] == "fwd" and case.get("seed", 0) % 3 == 0 and hasattr(Kt, "clone"):
+                    # documented: intrinsics given to forward() OVERRIDE the default kept in the module - so construct the module with
+                    # some OTHER default and pass the true matrix per call (seed C17e: the constructor's matrix silently won)
+                    Kd = Kt.clone()
+                    Kd[..., 0, 0] = Kd[..., 0, 0] * 0.55
+                    Kd[..., 1, 1] = Kd[..., 1, 1] * 1.6
+                    Kd[..., 1, 2] = Kd[..., 1, 2] - 7.0
+                    solver = pp.module.EPnP(Kd, refine=case["refine"])
+                    rec.label("ctor_default_overridden_per_call")
                 if case.get("reuse"):
                     # an earlier call of the same module with OTHER per-call intrinsics (result discarded): nothing may leak
                     K2 = Kt.clone()
